@@ -414,7 +414,8 @@ def _c06_sqlite(case):
 
             def execute(self, sql, *a):
                 s = sql.upper()
-                if (eff == "user_version" and "USER_VERSION=" in s.replace(" ", "")) or (eff == "insert" and "INSERT" in s):
+                if (eff == "user_version" and "USER_VERSION=" in s.replace(" ", "")) or (eff == "insert" and "INSERT" in s) \
+                        or (eff == "delete" and "DELETE" in s):
                     raise Fault(eff)
                 return self.c.execute(sql, *a)
 
